@@ -12,3 +12,4 @@ import AnyTLS.Props.C10
 #print axioms AnyTLS.C10.close_never_ok
 #print axioms AnyTLS.C10.slots_independent
 #print axioms AnyTLS.C10.ok_only_after_connect
+#print axioms AnyTLS.C10.answer_finds_pending_open
